@@ -189,9 +189,9 @@ func c05Run(run *ev.Run) {
 		"'destroyed' is judged on the store's content after the check (equivalent refactorings are not flagged)",
 		"thorough additionally injects single store faults (before/after)",
 	}
-	depth := 5
+	depth := 6
 	if run.Tier == "thorough" {
-		depth = 6
+		depth = 7
 	}
 	var total seqx.Stats
 	specs := []world.Spec{
